@@ -174,20 +174,23 @@ pub fn c17_dsu_union_inductive_n8() {
     d.union(x, y);
     let q = d.parents().to_vec();
     let rk = d.ranks().to_vec();
-    // new partition = old partition with the components of x and y merged
+    // new partition = old partition with the components of x and y merged, stated for an ARBITRARY pair
+    // (i, j) - the solver covers all 64 pairs; roots are computed once per element
+    let mut before = [0usize; NI];
+    let mut after = [0usize; NI];
     let mut i = 0;
     while i < NI {
-        let mut j = 0;
-        while j < NI {
-            let (ri, rj) = (true_root(&p, i), true_root(&p, j));
-            let before = ri == rj;
-            let merged = (ri == rx || ri == ry) && (rj == rx || rj == ry);
-            let after = true_root(&q, i) == true_root(&q, j);
-            assert!(after == (before || merged), "union_merges_exactly_the_two_components");
-            j += 1;
-        }
+        before[i] = true_root(&p, i);
+        after[i] = true_root(&q, i);
         i += 1;
     }
+    let i: usize = kani::any();
+    let j: usize = kani::any();
+    kani::assume(i < NI && j < NI);
+    let (ri, rj) = (before[i], before[j]);
+    let was = ri == rj;
+    let merged = (ri == rx || ri == ry) && (rj == rx || rj == ry);
+    assert!((after[i] == after[j]) == (was || merged), "union_merges_exactly_the_two_components");
     // (two rank-3 roots cannot both exist among 8 elements, so the result always fits rank <= 3)
     assert!(invariant(&q, &rk), "union_preserves_the_representation_invariant");
     kani::cover!(rx != ry && r[rx] == r[ry] && r[rx] == 2, "equal-rank union creating a rank-3 root");
